@@ -176,6 +176,13 @@ FN2 == {  \* two parameters: binding order, left-to-right evaluation, by-value, 
 FNPrograms(z) ==
   { << <<SFunc(0, "fun", <<"p">>, b)>>, mn >> : b \in FNBodies("fun", "p"), mn \in FNMains("fun") } \cup FN2
 
+(* NC: two variables `x` and `y` that are alive together; run under namings that give them names a careless key would merge (C15) *)
+NCPrograms == {
+  << <<Put(N(1), "x"), Put(N(2), "y"), Say(Var("x")), Say(Var("y")), SInc(0, Var("x"), 1), Say(Var("y")), Say(Var("x"))>> >>,
+  << <<SFunc(0, "fun", <<"x", "y">>, <<Ret(Bin("minus", Var("x"), <<Var("y")>>))>>)>>, <<Say(Call("fun", <<N(5), N(3)>>))>> >>,
+  << <<SRock(0, Var("x"), <<N(1), N(2)>>), Put(S("s"), "y"), SRoll(0, Var("x"), Var("y")), Say(Var("y")), Say(Var("x"))>> >>
+}
+
 (* PR: pronouns next to every construct that can follow them (comparisons spelled with 's / 're, poetic assignment, subscripts) *)
 PRPrograms(z) == {
   << <<Put(N(5), "x"), Say(Eq(Pro, N(5))), SPNum(0, Pro, N(6)), Say(Pro), SIf(0, Eq(Pro, N(6)), <<SayS("six")>>, TRUE, <<SayS("other")>>), Say(Var("x"))>> >>,
